@@ -93,14 +93,23 @@ func (ex *Exec) pickNext() *Thread {
 	if !ex.exploreSched || len(cands) == 1 {
 		return cands[0]
 	}
+	curRunnable := s.cur.runnable()
+	if curRunnable && ex.preemptBound >= 0 && ex.preemptions >= ex.preemptBound {
+		return s.cur // context bound reached: the running thread continues until it blocks
+	}
+	pick := cands[len(cands)-1]
 	for i := 0; i < len(cands)-1; i++ {
-		v := ex.ts.Var(BoolSort, fmt.Sprintf("sched%d", ex.nsched))
+		v := ex.mkNondet(BoolSort, fmt.Sprintf("sched%d", ex.nsched))
 		ex.nsched++
-		if ex.decide(v) {
-			return cands[i]
+		if ex.decideFree(v) {
+			pick = cands[i]
+			break
 		}
 	}
-	return cands[len(cands)-1]
+	if curRunnable && pick != s.cur {
+		ex.preemptions++
+	}
+	return pick
 }
 
 func (ex *Exec) killAll() {
